@@ -62,6 +62,7 @@ type Violation struct {
 	Plan     interface{}       `json:"plan"`
 	Seed     uint64            `json:"seed"`
 	Harness  string            `json:"harness,omitempty"`
+	Size     int               `json:"-"` // size of the plan (smaller is reported first within a group)
 	path     string
 }
 
@@ -199,6 +200,9 @@ func (c *Ctx) Finish() int {
 		id := v.Class + " " + matchStr(v.Key)
 		if g, ok := groups[id]; ok {
 			g.n++
+			if v.Size > 0 && (g.first.Size == 0 || v.Size < g.first.Size) {
+				g.first = v
+			}
 			continue
 		}
 		groups[id] = &group{first: v, n: 1}
